@@ -837,6 +837,25 @@ pub fn main(args: &Args) {
     for q in ["true", "false", "True", "TRUE", "1", "0", "yes", "t", " true", "x", "xy", "aa", "::", "😬", "😬😬", "ab", "aba", "é", "e\u{301}", "a\nb", "with \"quotes\"", "back\\slash", "/usr/bin", "", " "] {
         misc.push(Lit::Quoted(q.to_string()));
     }
+    // quoted strings around the lengths where truncation / buffer thresholds sit, in 1-, 2-, 3- and
+    // 4-byte characters (refused by every numeric target: with a span, never a panic)
+    for n in [15usize, 16, 17, 31, 32, 33, 63, 64, 65, 127, 128, 129, 255, 256, 257] {
+        for unit in ["x", "é", "名", "😬"] {
+            misc.push(Lit::Quoted(unit.repeat(n)));
+            misc.push(Lit::Quoted(format!("a{}", unit.repeat(n))));
+        }
+    }
+    // long zero-padded spellings of small numbers: quoted (std accepts any number of leading
+    // zeros) and bare
+    for zeros in [10usize, 36, 37, 38, 39, 40, 41, 50, 100, 300] {
+        for v in ["255", "127", "1", "0", "256", "65535"] {
+            misc.push(Lit::Quoted(format!("{}{v}", "0".repeat(zeros))));
+            misc.push(Lit::Quoted(format!("-{}{v}", "0".repeat(zeros))));
+            misc.push(Lit::Quoted(format!("+{}{v}", "0".repeat(zeros))));
+            misc.push(Lit::BareInt(format!("{}{v}", "0".repeat(zeros))));
+            misc.push(Lit::BareInt(format!("-{}{v}", "0".repeat(zeros))));
+        }
+    }
     for f in &fbare {
         misc.push(Lit::BareFloat(f.clone()));
     }
